@@ -29,10 +29,19 @@ func (s verState) clone() verState {
 	return n
 }
 
+// clearedKey marks the state after ClearPoolRules: the pool is out of service (executions run nothing and
+// return an empty result) until a full or an incremental update brings it back; a removal does not.
+const clearedKey = "\x00cleared"
+
+func (s verState) cleared() bool { _, c := s[clearedKey]; return c }
+
 func (s verState) ruleSet() *trace.RuleSet {
 	rs := &trace.RuleSet{}
 	var names []string
 	for n := range s {
+		if n == clearedKey {
+			continue
+		}
 		names = append(names, n)
 	}
 	sort.Strings(names)
@@ -71,9 +80,12 @@ const (
 	updIncremental
 	updRemoval
 	updFailing
+	// updClear: ClearPoolRules - not an update of C07's list, but a state updates start from: the updates
+	// that follow it (full or incremental) must be visible once they have returned
+	updClear
 )
 
-var updNames = []string{"full", "incremental", "removal", "failing"}
+var updNames = []string{"full", "incremental", "removal", "failing", "clear"}
 
 type update struct {
 	kind  updKind
@@ -124,6 +136,7 @@ func genUpdate(r *rand.Rand, tg *tagger, cur verState, kind updKind, earlier ...
 		u.text, u.after = textOf(rules, nil), st
 	case updIncremental:
 		st := cur.clone()
+		delete(st, clearedKey)
 		n := 1 + r.Intn(3)
 		var rules []*trace.Rule
 		used := map[string]bool{}
@@ -150,7 +163,9 @@ func genUpdate(r *rand.Rand, tg *tagger, cur verState, kind updKind, earlier ...
 		st := cur.clone()
 		var present []string
 		for n := range cur {
-			present = append(present, n)
+			if n != clearedKey {
+				present = append(present, n)
+			}
 		}
 		sort.Strings(present)
 		// keep at least 3 rules so that every call shape stays meaningful
@@ -171,6 +186,8 @@ func genUpdate(r *rand.Rand, tg *tagger, cur verState, kind updKind, earlier ...
 			delete(st, n)
 		}
 		u.after = st
+	case updClear:
+		u.after = verState{clearedKey: nil}
 	case updFailing:
 		switch r.Intn(3) {
 		case 0:
@@ -193,6 +210,7 @@ func applyModel(st verState, u *update) verState {
 		return u.after
 	case updIncremental:
 		n := st.clone()
+		delete(n, clearedKey)
 		for k, v := range u.delta {
 			n[k] = v
 		}
@@ -203,6 +221,8 @@ func applyModel(st verState, u *update) verState {
 			delete(n, k)
 		}
 		return n
+	case updClear:
+		return verState{clearedKey: nil}
 	}
 	return st
 }
@@ -261,6 +281,9 @@ func apply(p *engine.GenginePool, u *update) error {
 		return p.UpdatePooledRules(u.text)
 	case updIncremental:
 		return p.UpdatePooledRulesIncremental(u.text)
+	case updClear:
+		p.ClearPoolRules()
+		return nil
 	default:
 		return p.RemoveRules(u.names)
 	}
@@ -297,6 +320,13 @@ func genExecCall(r *rand.Rand) trace.Call {
 // explain returns nil when version st fully explains the execution.
 func explain(st verState, c trace.Call, out trace.Outcome) []trace.Finding {
 	var bad []trace.Finding
+	if st.cleared() {
+		// out of service: nothing runs, nothing is returned (error-nilness is not decided here)
+		if len(out.Events) > 0 || len(out.Result) > 0 || out.Panic != nil {
+			bad = append(bad, trace.Finding{Clause: trace.ClOnce, Msg: fmt.Sprintf("the pool was cleared, yet the execution ran something: %d event(s), result %v, panic %v", len(out.Events), out.Result, out.Panic)})
+		}
+		return bad
+	}
 	for _, f := range trace.Check(st.ruleSet(), c, out, false) {
 		switch f.Clause {
 		case trace.ClOnce, trace.ClResult, trace.ClSelect, trace.ClWindow, trace.ClDag, trace.ClPanic:
@@ -501,6 +531,10 @@ func runHistory(k *fw.Case) {
 			kind := updFull
 			if !multi {
 				kind = updKind(r.Intn(4))
+				if r.Intn(9) == 0 {
+					kind = updClear
+					k.Count("clears_in_histories", 1)
+				}
 			} else if r.Intn(5) == 0 {
 				kind = updFailing
 			}
@@ -719,6 +753,10 @@ func runHistory(k *fw.Case) {
 func names(s verState) []string {
 	var out []string
 	for n, r := range s {
+		if n == clearedKey {
+			out = append(out, "(cleared)")
+			continue
+		}
 		out = append(out, fmt.Sprintf("%s:%d", n, r.ID))
 	}
 	sort.Strings(out)
